@@ -32,7 +32,7 @@ class C38(core.Prop):
         prog = syncgen.programs(kinds=("mutex", "sem", "cond", "barrier", "mailbox", "random", "tick"), max_actors=4 if big else 3,
                                 max_ops=8 if big else 6, mc=True, max_mutex=1, max_sem=1, max_cond=1, max_bar=1,
                                 profile="contention")
-        variant = st.fixed_dictionaries({"algo": st.sampled_from(["DFS", "DFS", "BeFS"]),
+        variant = st.fixed_dictionaries({"algo": st.sampled_from(["DFS", "DFS", "DFS", "DFS", "DFS", "BeFS"]),
                                          "strategy": st.sampled_from(["none", "none", "uniform"]),
                                          "seed": st.integers(0, 1000)})
         return st.tuples(prog, variant).map(lambda t: {"program": t[0], "variant": t[1]})
